@@ -328,6 +328,7 @@ func c1profile3() []*c1pkg {
 
 func c1profile5() []*c1pkg {
 	decls := "import (\n\t\"errors\"\n\t\"fmt\"\n\t\"math\"\n\t\"strconv\"\n\t\"strings\"\n)\n\nvar _ = errors.New\nvar _ = math.Pi\nvar _ = strconv.Itoa\nvar _ = strings.Repeat\n\n"
+	decls += "var errNF = errors.New(\"nf\")\nvar errOther = errors.New(\"nf\")\n\nfunc find(k int) error {\n\tif k == 0 {\n\t\treturn nil\n\t}\n\tif k == 1 {\n\t\treturn errNF\n\t}\n\treturn errOther\n}\n\nfunc show(x int) { fmt.Println(\"show\", x) }\n\nfunc twice(x int) int { return 2 * x }\n\n"
 	p := &c1pkg{name: "pe0000", decls: decls}
 	add := func(key, body string) {
 		p.snippets = append(p.snippets, c02indent(strings.TrimRight(body, "\n"), "\t"))
@@ -363,6 +364,14 @@ func c1profile5() []*c1pkg {
 	for _, f := range []string{"0.0", "1.5", "-2.25", "1234.5678", "1e21", "0.000001"} {
 		add("strconv.FormatFloat "+f, fmt.Sprintf("f := %s\nfmt.Println(strconv.FormatFloat(f, 'f', 2, 64), strconv.FormatFloat(f, 'f', -1, 64), strconv.FormatFloat(f, 'g', -1, 64), strconv.FormatFloat(f, 'e', 3, 64))\n", f))
 	}
+	for _, s := range []string{`"0.1"`, `"1.5"`, `"16777217"`, `"3.4e39"`, `"x"`} {
+		add("strconv.ParseFloat at 32 bits "+s, fmt.Sprintf("s := %s\nf, err := strconv.ParseFloat(s, 32)\nfmt.Println(f, err == nil)\n", s))
+	}
+	for _, k := range []string{"0", "1", "2"} {
+		add("error values compare by identity "+k, fmt.Sprintf("e := find(%s)\nfmt.Println(e == errNF, e != errNF, e == errOther, errOther == e, e == nil, e == e)\nswitch e {\ncase nil:\n\tfmt.Println(\"none\")\ncase errOther:\n\tfmt.Println(\"other\")\ncase errNF:\n\tfmt.Println(\"nf\")\ndefault:\n\tfmt.Println(\"unknown\")\n}\nf := e\nfmt.Println(f == e, errors.New(\"nf\") == errNF)\n", k))
+	}
+	add("a variable of a function type without results", "var op func(int) = show\nop(3)\nvar tw func(int) int = twice\nfmt.Println(tw(4))\n")
+	add("a tuple assignment as a post statement", "n := 0\nfor i, j := 0, 5; i < j; i, j = i+1, j-1 {\n\tn += j - i\n}\nfmt.Println(n)\nfor i, j := 0, 9; i < j; i, j = i+2, j-twice(1) {\n\tn = n*10 + i + j\n}\nfmt.Println(n)\n")
 	add("errors.New", "e := errors.New(\"bad thing\")\nfmt.Println(e.Error(), e != nil)\nvar n error\nfmt.Println(n == nil)\n")
 	for _, v := range []string{"42", "\"s\"", "1.5", "true", "[]int{1, 2}", "map[string]int{\"k\": 1}", "byte(200)", "-0.5", "1e21", "\"\""} {
 		add("fmt functions on "+v, fmt.Sprintf("v := %s\nfmt.Println(v)\nfmt.Print(v)\nfmt.Print(\"\\n\")\ns := fmt.Sprint(v)\nfmt.Println(len(s), s)\nfmt.Println(fmt.Sprintf(\"<%%v>\", v), fmt.Sprintf(\"%%v-%%v\", v, 7))\nfmt.Println(v, v, 1, \"x\")\n", v))
